@@ -276,8 +276,8 @@ example :
     let s := runMain (fun _ _ _ => []) 5 (initLoop 1000 false []) [MainOp.op (.init .idle), MainOp.op (.close 2)]
     alive s = true ∧ s.closing = [2] ∧ s.reqs = [] ∧ s.pending = [] := by decide
 example :
-    let s := runMain (fun _ _ _ => []) 5 (initLoop 1000 false []) [MainOp.op .work]
-    alive s = true ∧ s.closing = [] ∧ s.reqs = [⟨0, .work⟩] ∧ s.pending = [] := by decide
+    let s := runMain (fun _ _ _ => []) 5 (initLoop 1000 false []) [MainOp.op (.work .queueWork)]
+    alive s = true ∧ s.closing = [] ∧ s.reqs = [⟨0, .work .queueWork⟩] ∧ s.pending = [] := by decide
 
 /-! ### uv_run's return value -/
 theorem alive_stop (s : State) (b : Bool) : alive { s with stop := b } = alive s := rfl
@@ -396,17 +396,38 @@ def reqs_inv_statement : Prop :=
     s.ar = s.reqs.length ∧ 0 ≤ s.ar
 
 /-- `reqs_inv_partial` (kept; superseded by `reqs_inv`): submission registers exactly one request
-    (`uv_queue_work`, first half of `uv__udp_send`), and a completion step (`uv__req_unregister` + removal of the
+    (`uv_queue_work` / `uv_fs_*` on either route / `uv_getaddrinfo` / `uv_getnameinfo` / `uv_random`, first half of `uv__udp_send`), and a completion step (`uv__req_unregister` + removal of the
     record) keeps `active_reqs = |owed|` when the completed request is owed exactly once.  That premise is what
     `Lemmas/LoopReqs.lean` establishes at every completion site (`held_owed_once`). -/
+theorem asyncSend_ar_reqs (s : State) (id : Nat) : (asyncSend s id).ar = s.ar ∧ (asyncSend s id).reqs = s.reqs := by
+  unfold asyncSend; split
+  · exact ⟨rfl, rfl⟩
+  · split <;> exact ⟨rfl, rfl⟩
+
+theorem workSubmit_ar (s : State) (api : Api) (h : s.ar = s.reqs.length) :
+    (workSubmit s api).ar = (workSubmit s api).reqs.length := by
+  unfold workSubmit; simp only
+  split
+  · split
+    · simp [reqRegister, h]
+    · rw [(asyncSend_ar_reqs _ 1).1, (asyncSend_ar_reqs _ 1).2]; simp [reqRegister, h]
+  · simp [reqRegister, h]
+
 theorem reqs_inv_partial (s : State) (h : s.ar = s.reqs.length) :
-    (workSubmit s).ar = (workSubmit s).reqs.length ∧
+    (∀ api, (submit s api).ar = (submit s api).reqs.length) ∧
     (∀ id, (udpSendEnqueue s id).ar = (udpSendEnqueue s id).reqs.length) ∧
     (∀ r, (s.reqs.filter (·.id == r)).length = 1 →
       reqUnregister s.ar = ((s.reqs.filter (·.id != r)).length : Int)) := by
   refine ⟨?_, ?_, ?_⟩
-  · unfold workSubmit; simp only
-    split <;> simp [reqRegister, h]
+  · intro api
+    have hr : (ringInit s).ar = (ringInit s).reqs.length := by
+      unfold ringInit; split <;> exact h
+    unfold submit; simp only
+    split
+    · split
+      · simp [ringSubmit, reqRegister, hr]
+      · exact workSubmit_ar _ api hr
+    · exact workSubmit_ar s api h
   · intro id; simp [udpSendEnqueue, modH, reqRegister, h]
   · intro r hr
     have : ∀ l : List Req, (l.filter (·.id == r)).length + (l.filter (·.id != r)).length = l.length := by
@@ -458,7 +479,7 @@ theorem held_owed_once (s : State) (hr : Reqs.RInv none s) (r : Nat) (hh : 0 < R
     send (slot in `write_queue`), a sent one (slot in `write_completed_queue`) and a cancelled work item -/
 example :
     let s := runMain (fun _ _ _ => []) 5 (initLoop 1000 false [])
-      [MainOp.op (.init .udp), MainOp.op .work, MainOp.op .work, MainOp.op (.udpSend 2), MainOp.op (.udpSend 2),
+      [MainOp.op (.init .udp), MainOp.op (.work .queueWork), MainOp.op (.work .queueWork), MainOp.op (.udpSend 2), MainOp.op (.udpSend 2),
        MainOp.op (.cancel 1)]
     Reqs.RInv none s ∧ Reqs.cnt none 1 s = 1 ∧ Reqs.cnt none 2 s = 1 ∧ Reqs.cnt none 3 s = 1 ∧ Reqs.cnt none 4 s = 0 :=
   ⟨Reqs.runMain_rinv _ _ _ _ (Reqs.initLoop_rinv _ _ _), by decide +kernel⟩
@@ -485,16 +506,49 @@ theorem reqs_ids (sc : Script) (fuel clock0 : Nat) (metrics : Bool) (oracle : Li
     one running on the pool thread, one queued -/
 example :
     let s := runMain (fun _ _ _ => []) 5 (initLoop 1000 false [{ clock := 1000, done := 1, batch := [(.async, 1)] }])
-      [MainOp.op (.init .udp), MainOp.op .work, MainOp.op .work, MainOp.op .work, MainOp.op .work,
+      [MainOp.op (.init .udp), MainOp.op (.work .queueWork), MainOp.op (.work .queueWork), MainOp.op (.work .queueWork), MainOp.op (.work .queueWork),
        MainOp.op (.udpSend 2), MainOp.op (.udpSend 2), MainOp.op (.cancel 1), MainOp.run .nowait]
-    s.ar = 2 ∧ s.reqs = [⟨2, .work⟩, ⟨3, .work⟩] ∧ s.running = some 2 ∧ s.poolQ = [3] ∧ s.ncbTotal = 4 ∧
+    s.ar = 2 ∧ s.reqs = [⟨2, .work .queueWork⟩, ⟨3, .work .queueWork⟩] ∧ s.running = some 2 ∧ s.poolQ = [3] ∧ s.ncbTotal = 4 ∧
       Reqs.cnt none 2 s = 1 ∧ Reqs.cnt none 3 s = 1 := by decide +kernel
 /-- before the run: five owed (three work — one of them cancelled and waiting in `loop->wq` — and two sends) -/
 example :
     let s := runMain (fun _ _ _ => []) 5 (initLoop 1000 false [])
-      [MainOp.op (.init .udp), MainOp.op .work, MainOp.op .work, MainOp.op .work,
+      [MainOp.op (.init .udp), MainOp.op (.work .queueWork), MainOp.op (.work .queueWork), MainOp.op (.work .queueWork),
        MainOp.op (.udpSend 2), MainOp.op (.udpSend 2), MainOp.op (.cancel 1)]
     s.ar = 5 ∧ s.reqs.length = 5 ∧ s.doneQ = [(1, true)] ∧ s.poolQ = [2] ∧ s.running = some 0 ∧
       (s.handles.map (fun h => (h.wq, h.wcq))) = [([], []), ([], []), ([4], [(3, 1)])] := by decide +kernel
+
+/-! ### the request kinds beyond `uv_queue_work` (fs on both routes, getaddrinfo, getnameinfo, random) -/
+/-- non-vacuity, io_uring route: on a loop configured for io_uring an `uv_fs_write` with 3 buffers goes into the
+    ring (one registration, in flight), one with IOV_MAX + 1 buffers falls back to the thread pool *without*
+    touching the ring (linux.c:1053-1058) and — its work not being gated — sits in `loop->wq` at once -/
+example :
+    let s := runMain (fun _ _ _ => []) 5 (initLoop 1000 false [])
+      [MainOp.op .useIoUring, MainOp.op (.work (.fs .write 1025)), MainOp.op (.work (.fs .write 3)),
+       MainOp.op (.work (.fs .read 2000)), MainOp.op (.cancel 1)]
+    s.ar = 3 ∧ s.reqs = [⟨0, .work (.fs .write 1025)⟩, ⟨1, .ring (.fs .write 3)⟩, ⟨2, .ring (.fs .read 2000)⟩] ∧
+      s.ring = .ok ∧ s.ringQ = [1, 2] ∧ s.doneQ = [(0, false)] ∧ alive s = true ∧ s.nIllegal = 0 ∧
+      Reqs.cnt none 0 s = 1 ∧ Reqs.cnt none 1 s = 1 := by decide +kernel
+/-- … and after one `uv_run(UV_RUN_NOWAIT)` whose poll reports the async watcher and the ring (completion queue
+    r2, r1) all three callbacks have run, nothing is registered, the loop is dead and `uv_loop_close` succeeds -/
+example :
+    let s := runMain (fun _ _ _ => []) 5
+      (initLoop 1000 false [{ clock := 1000, batch := [(.async, 1), (.ring [2, 1], 1)] }])
+      [MainOp.op .useIoUring, MainOp.op (.work (.fs .write 1025)), MainOp.op (.work (.fs .write 3)),
+       MainOp.op (.work (.fs .read 2000)), MainOp.run .nowait, MainOp.loopClose]
+    s.ar = 0 ∧ s.reqs = [] ∧ s.ringQ = [] ∧ s.doneQ = [] ∧ s.doneLocal = [] ∧ s.ncbTotal = 3 ∧ s.closed = true ∧
+      (s.trace.reverse.filterMap fun e => match e with | .cb _ .work id _ b => some (id, b) | _ => none) =
+        [(0, 1), (2, 1), (1, 1)] := by decide +kernel
+/-- without `uv_loop_configure(UV_LOOP_USE_IO_URING_SQPOLL)` the first fs request marks the ring as failed for good
+    (a later configure has no effect); getaddrinfo is Legal only into an idle pool; every kind can be cancelled
+    while queued behind a running work item -/
+example :
+    let s := runMain (fun _ _ _ => []) 5 (initLoop 1000 false [])
+      [MainOp.op (.work (.fs .stat 0)), MainOp.op .useIoUring, MainOp.op (.work (.fs .open 0)),
+       MainOp.op (.work .getaddrinfo), MainOp.op (.work .queueWork), MainOp.op (.work .random),
+       MainOp.op (.work (.fs .close 0)), MainOp.op (.work .getnameinfo), MainOp.op (.cancel 4), MainOp.op (.cancel 5),
+       MainOp.op (.cancel 3), MainOp.op (.cancel 0)]
+    s.ring = .failed ∧ s.ringQ = [] ∧ s.ar = 6 ∧ s.running = some 3 ∧ s.poolQ = [] ∧ s.nIllegal = 1 ∧
+      s.doneQ = [(0, false), (1, false), (2, false), (4, true), (5, true)] := by decide +kernel
 
 end UvModel.Props.C01
